@@ -417,8 +417,11 @@ def checkC12 (h : History) (obs : List RunObs) : Option String :=
       let afterTimeout := (List.range es.length).findSome? fun i =>
         match (es[i]? : Option Ev) with
         | some (Ev.wait g id "Timeout") =>
-          if (es.drop (i + 1)).any (fun e => match e with | .wait g' i' _ => g' = g && i' = id | _ => false)
-          then some s!"{id.name} is reported again by {g} after its Timeout" else none
+          -- (a report that arrives right after the deadline may still turn the object Successful / Failed — and is then what is
+          -- recorded; what cannot follow a Timeout is Pending, Skipped or a second Timeout)
+          if (es.drop (i + 1)).any (fun e => match e with
+              | .wait g' i' st => g' = g && i' = id && st ≠ "Successful" && st ≠ "Failed" | _ => false)
+          then some s!"{id.name} is reported pending / timed out again by {g} after its Timeout" else none
         | _ => none
       -- a group that finished with objects still pending (and no abort) must have reported Timeout for exactly them
       let cancelled := es.any fun e => match e with | .error "canceled" => true | .error "watcher" => true | _ => false
